@@ -269,6 +269,10 @@ def _closure_mentions(P, cl, names, seen=None):
                         if op["def"].endswith("::" + n):
                             found.add(n)
         stack.extend(P.closures_of(c))
+        # a private helper extracted from this function after the review is part of its body
+        from rules import is_new_helper
+        for bi, t, cs in P.calls(c):
+            stack.extend(x for x in cs if is_new_helper(P, x))
     return found
 
 
